@@ -20,16 +20,38 @@ func MapArray(env *Zlisp, fun *SexpFunction, arr *SexpArray) (Sexp, error) {
 	return &SexpArray{Val: result, Typ: firstTyp, Env: env}, nil
 }
 
+// appendNoAlias returns arr's elements followed by extra, for a new array.
+// Go's append writes into the spare capacity of its first argument, so two
+// arrays appended from the same array used to share -- and overwrite --
+// their new slots: after (def x (append u 7)) (def y (append u -2)), x ended
+// in -2 as well. The spare capacity is only reused by the one array that
+// reaches up to the last slot handed out so far (the usual
+// (set a (append a x)) loop, which stays amortised O(1)); any other append
+// copies.
+func appendNoAlias(arr *SexpArray, extra ...Sexp) ([]Sexp, *int) {
+	n := len(arr.Val)
+	if arr.used != nil && *arr.used == n && cap(arr.Val)-n >= len(extra) {
+		v := append(arr.Val, extra...)
+		*arr.used = len(v)
+		return v, arr.used
+	}
+	v := make([]Sexp, n, 2*(n+len(extra))+4)
+	copy(v, arr.Val)
+	v = append(v, extra...)
+	used := len(v)
+	return v, &used
+}
+
 func ConcatArray(arr *SexpArray, rest []Sexp) (Sexp, error) {
 	if arr == nil {
 		return SexpNull, fmt.Errorf("ConcatArray called with nil arr")
 	}
 	var res SexpArray
-	res.Val = arr.Val
+	res.Val, res.used = arr.Val, arr.used
 	for i, x := range rest {
 		switch t := x.(type) {
 		case *SexpArray:
-			res.Val = append(res.Val, t.Val...)
+			res.Val, res.used = appendNoAlias(&res, t.Val...)
 		default:
 			return &res, fmt.Errorf("ConcatArray error: %d-th argument "+
 				"(0-based) is not an array", i)
